@@ -52,8 +52,9 @@ MANIFEST = {
              "rationals), and an independent dict-based map oracle plus heap-level isolation checks (non-receivers unchanged, functional "
              "results share no memory with inputs) run on the real objects and supply the replay."),
     "design": "7/C10",
-    "note": ("numpy dtype promotion/printing, the state left by a write that raises half-way, extrapolate(log=True), median/std/var/quantiles, "
-             "log_linear/from_series fills and transcendental element-wise functions are outside the model; mean/nanmean/mov_avg/linear "
+    "note": ("numpy dtype promotion/printing, the state left by a write that raises half-way, median/std/var/quantiles, "
+             "log_linear/from_series fills and transcendental element-wise functions are outside the model; extrapolate(log=True) is outside "
+             "the Lean model too and checked by an oracle-only stream (history bit-identical, recursion in logs); mean/nanmean/mov_avg/linear "
              "fills and extrapolate (scipy lfilter) are compared with tolerance 1e-9 (class T) when a divisor is not a power of two; which numpy call copies or returns a view inside one object is not modelled (the heap model speaks "
              "about sharing between objects only)."),
     "technique": "Lean 4 proof (refinement of an executable model to a map) + op-sequence differential correspondence + heap isolation oracle",
@@ -66,6 +67,8 @@ ASSUMPTIONS = [
     "infinite values: operators, comparisons, tests, fills, statistics, moving windows and all structural ops are driven on them (with an "
     "infinite operand the IEEE result of a sum or product does not depend on the order of the operations); extrapolate is generated on "
     "finite data only (lfilter state with infinities)",
+    "extrapolate(log=True) is oracle-only (exp/log outside the rational model): untouched history compared bit for bit, values in the "
+    "span against the recursion in logs with tolerance 1e-9",
     "reads and writes are driven through every public spelling (set_data/get_data positional and keyword, bracket syntax, call syntax)",
     "class T: after mean/nanmean/mov_avg/linear-fill ops values are compared with tolerance 1e-9*max(1,|x|), structure exactly; "
     "the generator lets such inexact values flow only through structural operations",
@@ -81,8 +84,8 @@ POOL = 3
 
 TRIM_OPS = {"set", "setb", "setk", "overlay", "underlay", "foverlay", "funderlay", "bin", "sc", "rsc", "rw"}   # writes and arithmetic operators
 FUNCTIONAL = {"new", "init", "call", "fshift", "idx", "foverlay", "funderlay", "hstack", "bin", "sc", "rsc", "un", "copy",
-              "stat", "mov", "fill", "extrap"}
-METHODS = {"set", "setb", "setk", "shift", "clip", "overlay", "underlay", "trim", "empty", "mstat", "mmov", "mfill", "rw", "mextrap"}
+              "stat", "mov", "fill", "extrap", "lextrap"}
+METHODS = {"set", "setb", "setk", "shift", "clip", "overlay", "underlay", "trim", "empty", "mstat", "mmov", "mfill", "rw", "mextrap", "mlextrap"}
 STATS = ["sum", "prod", "mean", "min", "max", "nansum", "nanprod", "nanmean", "nanmin", "nanmax"]
 MOVS = {"sum": "mov_sum", "avg": "mov_avg", "prod": "mov_prod"}
 FILLS = ["constant", "next", "previous", "nearest", "linear"]
@@ -356,6 +359,15 @@ def exec_op(pool, ws):
         if op == "fill":
             pool[I(1)] = ir.fill_missing(pool[I(2)], method, marg, span=span); return "", None, I(1)
         pool[I(1)].fill_missing(method, marg, span=span); return "", I(1), None
+    if op in ("lextrap", "mlextrap"):
+        # extrapolate(..., log=True): oracle-only stream (exp/log are outside the rational model)
+        off = 1 if op == "lextrap" else 0
+        coeffs = tuple(float(Fraction(c)) for c in split_ne(ws[2 + off], ","))
+        c0, d = float(Fraction(ws[3 + off])), parse_dates(ws[4 + off])
+        with np.errstate(all="ignore"):
+            if op == "lextrap":
+                pool[I(1)] = ir.extrapolate(pool[I(2)], coeffs, impl_dates(d), intercept=c0, log=True); return "", None, I(1)
+            pool[I(1)].extrapolate(coeffs, impl_dates(d), intercept=c0, log=True); return "", I(1), None
     if op in ("extrap", "mextrap"):
         off = 1 if op == "extrap" else 0
         coeffs = tuple(float(Fraction(c)) for c in split_ne(ws[2 + off], ","))
@@ -837,6 +849,40 @@ def oracle_step(oracle, reps, ws):
                 if val is not None:
                     m[(t, v)] = val
         put(k, m, src["nv"])
+    elif op in ("lextrap", "mlextrap"):
+        import math
+        off = 1 if op == "lextrap" else 0
+        k, i = (I(1), I(2)) if op == "lextrap" else (I(1), I(1))
+        coeffs = [float(Fraction(c)) for c in split_ne(ws[2 + off], ",")]
+        c0, d = float(Fraction(ws[3 + off])), parse_dates(ws[4 + off])
+        rep, src = reps[i], oracle[i]
+        m = dict(src["m"])
+        if rep[1] is not None:
+            dfreq, serials = o_dates(d, rep)
+            if serials:
+                if dfreq != rep[0] or not coeffs or src["nv"] == 0 or len(set(serials)) != len(serials):
+                    raise Undefined
+                # x_t = exp(rho_1 log x_{t-1} + … + rho_p log x_{t-p} + c): the recursion in logs; every cell outside the span is untouched
+                for v in range(src["nv"]):
+                    hist = [src["m"].get((serials[0] - j, v)) for j in range(1, len(coeffs) + 1)]
+                    if any(z is not None and (is_inf(z) or z <= 0) for z in hist):
+                        raise Undefined                  # log of a non-positive or infinite lag: IEEE corner cases of lfilter, not demanded
+                    lh = [None if z is None else math.log(float(z)) for z in hist]
+                    for t in serials:
+                        lags = lh[: len(coeffs)]
+                        y = None if any(z is None for z in lags) else sum(r * z for r, z in zip(coeffs, lags)) + c0
+                        lh.insert(0, y)
+                        try:
+                            x = None if y is None else math.exp(y)
+                        except OverflowError:
+                            raise Undefined
+                        if x is None:
+                            m.pop((t, v), None)
+                        elif x == 0.0 or x == INF:
+                            raise Undefined
+                        else:
+                            m[(t, v)] = Fraction(x)
+        put(k, m, src["nv"])
     elif op in ("extrap", "mextrap"):
         off = 1 if op == "extrap" else 0
         k, i = (I(1), I(2)) if op == "extrap" else (I(1), I(1))
@@ -900,7 +946,7 @@ TOL = 1e-9
 
 def is_t_op(o: str) -> bool:
     ws = o.split()
-    if ws and ws[0] in ("extrap", "mextrap"):
+    if ws and ws[0] in ("extrap", "mextrap", "lextrap", "mlextrap"):
         return True                                  # scipy.signal.lfilter: floating point, order of operations not modelled
     return bool(ws) and ws[0] in ("stat", "mstat", "mov", "mmov", "fill", "mfill") and any(w in T_OPS for w in ws[1:])
 
@@ -1004,7 +1050,7 @@ def run_line(line: str, ctx: Ctx | None = None, check: bool = True):
         loose = loose or is_t_op(o)
         name = ws[0] if ws else "?"
         base_name = {"foverlay": "overlay", "funderlay": "underlay", "fshift": "shift", "idx": "shift", "rsc": "sc", "cmp": "bin",
-                     "mstat": "stat", "mmov": "mov", "mfill": "fill", "mextrap": "extrap",
+                     "mstat": "stat", "mmov": "mov", "mfill": "fill", "mextrap": "extrap", "lextrap": "extrap", "mlextrap": "extrap",
                      "setb": "set", "setk": "set", "getb": "get", "getk": "get"}.get(name, name)
         tainted = set()
         old = list(pool)
@@ -1090,6 +1136,24 @@ def run_line(line: str, ctx: Ctx | None = None, check: bool = True):
             else:
                 if got[0] != "series" or not maps_close(got[1], out[1], loose) or got[2] != out[2]:
                     fail(f"map-cmp", f"`{o}` returned {text}, expected cells {sorted((a, str(b)) for a, b in out[1].items())[:6]}", k)
+        if name in ("extrap", "mextrap", "lextrap", "mlextrap"):
+            # whatever the options: every cell outside the extrapolated span is bit-identical to the input (exact, also in class T)
+            off_ = 1 if name in ("extrap", "lextrap") else 0
+            src_i = int(ws[2]) if off_ else int(ws[1])
+            tgt_ = result if result is not None else receiver
+            try:
+                span_ser = o_dates(parse_dates(ws[4 + off_]), reps[src_i])[1] if reps[src_i][1] is not None else []
+            except (Undefined, ValueError, IndexError):
+                span_ser = None
+            st0, d0 = snaps[src_i]
+            if span_ser is not None and st0 is not None:
+                inside = set(span_ser)
+                pre = {(st0.serial + r_, c_): fr(d0[r_, c_]) for r_ in range(d0.shape[0]) for c_ in range(d0.shape[1])
+                       if fr(d0[r_, c_]) is not None and (st0.serial + r_) not in inside}
+                post = {key: val for key, val in (map_of(pool[tgt_]) or {}).items() if key[0] not in inside}
+                if pre != post:
+                    diff = sorted(set(pre.items()) ^ set(post.items()), key=str)[:4]
+                    fail("history-extrap", f"`{o}` changed cells outside the extrapolated span: {[(a, str(b)) for a, b in diff]}", k)
         if name in TRIM_OPS and not (name in ("set", "setb", "setk") and nd_set == 0):
             # (a `set` that addresses no date is not a write: `clip`/`empty()` may have left untrimmed rows or a bare start there)
             tgt = receiver if receiver is not None else result
@@ -1282,6 +1346,9 @@ def gen_init(rng, k, f):
     return f"init {k} {f} {st} {nv} {rows_tok(gen_rows(rng, n, nv))}"
 
 
+ALLOW_LOG = [False]      # set while the oracle-only log-extrapolation stream is generated
+
+
 def gen_op(rng, pool, f, malformed):
     n = len(pool)
     name = rng.weighted(OP_WEIGHTS)
@@ -1351,7 +1418,8 @@ def gen_op(rng, pool, f, malformed):
             a = rng.weighted([(end + 1, 6), (end, 2), (end - 1, 2), (rep[1] + order, 2), (rep[1] + 1, 1), (rep[1] - 1, 0.5), (end + 3, 0.5)])
         n = rng.randint(1, 5)
         d = f"sp={ptok(g0, a)},{ptok(g0, a + n - 1)},1" if rng.chance(0.93) else gen_dates(rng, x, f, malformed)
-        return f"extrap {k} {i} {coeffs} {c0} {d}" if rng.chance(0.7) else f"mextrap {i} {coeffs} {c0} {d}"
+        lg = "l" if (ALLOW_LOG[0] and rng.chance(0.6)) else ""
+        return f"{lg}extrap {k} {i} {coeffs} {c0} {d}" if rng.chance(0.7) else f"m{lg}extrap {i} {coeffs} {c0} {d}"
     if name == "rw":
         t = rng.choice(list(TESTS))
         return f"rw {i} {t} {rat_of_float(rng.dyadic(-6, 6, 1))} {gen_cell(rng, 0.4)}"
@@ -1596,7 +1664,7 @@ def classify(ctx: Ctx, line, reply):
             ctx.nontriv(hash(line) & 0xFFFFFFFFFF)
 
 
-def process(ctx: Ctx, stream: str, lines, shrink_fail=True):
+def process(ctx: Ctx, stream: str, lines, shrink_fail=True, use_model=True):
     impl = []
     seen_sites = {f["site"] for f in ctx.failures}
     for line in lines:
@@ -1620,7 +1688,7 @@ def process(ctx: Ctx, stream: str, lines, shrink_fail=True):
                 ctx.fail(fl["site"], {"line": small, "found_in": line if small != line else None}, det)
             else:
                 ctx.failures.append(fl)
-    model = ctx.model("C10", lines)
+    model = ctx.model("C10", lines) if use_model else None
     if model is not None:
         model = list(model)
         for n_, (l, a, b) in enumerate(zip(lines, impl, model)):
@@ -1648,6 +1716,32 @@ def run(ctx: Ctx):
     ctx.count("random_sequences", nseq)
     for chunk in range(0, nseq, 10000):
         process(ctx, "random", lines[chunk: chunk + 10000])
+    process(ctx, "logextrap", log_extrap_lines(ctx), use_model=False)
+
+
+def log_extrap_lines(ctx: Ctx):
+    """extrapolate(log=True): oracle-only (exp/log are outside the rational model). Histories with non-positive values outside the
+    initial-condition window, positive ones inside it; AR orders 1-3; spans after, overlapping and inside the data"""
+    lines = []
+    heads = [("Q", 8080, "-1:0:2:4:8:3"), ("Q", 8080, "3,-2:5,0:1/8,7:2,4:4,1"), ("M", 24240, "0:nan:-3:1:2:4:8"),
+             ("I", 0, "5:3:1/2:1:2"), ("Q", 8080, "-4,1,0:2,3,5:1,1,2:4,2,8")]
+    for F_, s0, rows in heads:
+        n0 = rows.count(":") + 1; nv = rows.split(":")[0].count(",") + 1
+        h = f"3 | init 0 {F_} {s0} {nv} {rows}"
+        sp_ = lambda a, b: f"sp={F_}{s0 + a},{F_}{s0 + b},1"
+        for cs in ("1/2", "1,-1/2", "1/2,1/4", "0,1", "1/4,1/2,1/4"):
+            for c0 in ("0", "1/2"):
+                lines.append(f"{h} | lextrap 1 0 {cs} {c0} {sp_(n0, n0 + 2)} | lextrap 2 0 {cs} {c0} {sp_(n0 - 1, n0 + 1)}"
+                             f" | lextrap 2 0 {cs} {c0} {sp_(n0 - 2, n0 - 2)} | extrap 2 0 {cs} {c0} {sp_(n0, n0 + 1)} | mlextrap 0 {cs} {c0} {sp_(n0, n0 + 3)}"
+                             f" | mlextrap 0 {cs} {c0} {sp_(n0 + 6, n0 + 7)}")
+    rng = ctx.rng.fork("logseq")
+    ALLOW_LOG[0] = True
+    try:
+        lines += [gen_sequence(rng.fork(i), 14) for i in range(ctx.n(250, 4000))]
+    finally:
+        ALLOW_LOG[0] = False
+    ctx.count("log_extrapolation_sequences", len(lines))
+    return lines
 
 
 def search(ctx: Ctx, seeds):
@@ -1658,7 +1752,7 @@ def search(ctx: Ctx, seeds):
         if isinstance(l, str):
             lines.append(l)
     ctx.tier = "thorough"
-    lines += [l for _, l in corpus_lines()] + directed_lines(ctx)
+    lines += [l for _, l in corpus_lines()] + directed_lines(ctx) + log_extrap_lines(ctx)
     rng = ctx.rng.fork("search")
     lines += [gen_sequence(rng.fork(i), 30) for i in range(6000)]
     process(ctx, "search", lines)
